@@ -60,7 +60,14 @@ fn npy_strategy() -> impl Strategy<Value = NpyCase> {
             2 => Just(Source::Sfs),
             3 => (any::<u16>(), any::<bool>(), 1u8..=3).prop_map(|(d, big, version)| Source::Numpy { dtype: ALL_DTYPES[pick_idx(d, ALL_DTYPES.len())], big, version }),
         ],
-        shape_strategy(1, 5, 1, 4, 60),
+        prop_oneof![
+            12 => shape_strategy(1, 5, 1, 4, 60).boxed(),
+            // data sections that are whole multiples of (or just beside) 512 B .. 64 KiB read blocks
+            2 => prop_oneof![
+                Just(vec![1024usize]), Just(vec![2048]), Just(vec![4096]), Just(vec![8192]), Just(vec![32, 32]), Just(vec![2, 8, 64]), Just(vec![64]), Just(vec![128]), Just(vec![512]),
+                Just(vec![1023]), Just(vec![1025]), Just(vec![3, 683]), Just(vec![16_384]),
+            ].boxed(),
+        ],
         any::<u64>(),
     )
         .prop_map(|(source, shape, seed)| NpyCase { source, shape, seed })
@@ -85,7 +92,24 @@ fn eval_npy(_ctx: &Ctx, case: &NpyCase) -> Verdict {
     let mut pass = Pass::new();
     let mut damaged = 0u64;
     let mut delicate = 0u64;
-    for cut in 0..bytes.len() {
+    // every prefix of a small file; for large ones the header, the first and last 80 data bytes and
+    // 20 bytes either side of every multiple of 512
+    let cuts: Vec<usize> = if bytes.len() <= 2000 {
+        (0..bytes.len()).collect()
+    } else {
+        let mut v: Vec<usize> = (0..data_start + 80).chain(bytes.len() - 80..bytes.len()).collect();
+        let mut edge = 512usize;
+        while edge < bytes.len() {
+            for base in [edge, data_start + edge] {
+                v.extend((base.saturating_sub(20)..base + 20).filter(|c| *c < bytes.len()));
+            }
+            edge += if edge < 8192 { 512 } else { 4096 };
+        }
+        v.sort_unstable();
+        v.dedup();
+        v
+    };
+    for cut in cuts {
         must_reject(&bytes[..cut], &format!("{:?} shape {:?}: prefix of {cut} of {} bytes (data starts at {data_start})", case.source, case.shape, bytes.len()))?;
         damaged += 1;
         let at_value_boundary = cut >= data_start && (cut - data_start) % item == 0;
@@ -360,16 +384,41 @@ fn eval_cli(ctx: &Ctx, case: &CliCase) -> Verdict {
             None => return Ok(Pass::new().label("edit-not-applicable")),
         },
     };
-    let path = dir.join("damaged.bin");
+    // the file name is part of the case: neutral, matching the content's format, or contradicting it
+    let name = ["damaged.bin", "damaged.npy", "damaged.sfs", "damaged.txt", "damaged"][(bytes.len() + bytes.iter().take(64).map(|b| *b as usize).sum::<usize>()) % 5];
+    let path = dir.join(name);
     std::fs::write(&path, &bytes).expect("write");
-    for cmd in [vec!["view"], vec!["fold"], vec!["stat", "-s", "sum"], vec!["view", "-O", "npy"], vec!["stat", "-s", "sum,s", "-H"]] {
+    for cmd in [
+        vec!["view"],
+        vec!["fold"],
+        vec!["stat", "-s", "sum"],
+        vec!["view", "-O", "npy"],
+        vec!["view", "-O", "text"],
+        vec!["fold", "-O", "npy"],
+        vec!["view", "-O", "npy", "-o", "out.npy"],
+        vec!["fold", "-o", "out.sfs"],
+        vec!["stat", "-s", "sum,s", "-H"],
+    ] {
         let mut args: Vec<String> = cmd.iter().map(|s| s.to_string()).collect();
+        let _ = std::fs::remove_file(dir.join("out.npy"));
+        let _ = std::fs::remove_file(dir.join("out.sfs"));
         let run = if case.stdin {
             cli::sfs(ctx, &args, Input::File(&path), &dir)
         } else {
-            args.push("damaged.bin".into());
+            args.push(name.into());
             cli::sfs(ctx, &args, Input::Null, &dir)
         };
+        for o in ["out.npy", "out.sfs"] {
+            if let Ok(written) = std::fs::read(dir.join(o)) {
+                ensure!(
+                    !written.windows(6).any(|w| w == npy::MAGIC || w == b"#SHAPE"),
+                    "`sfs {}` on {what} (named {name}) wrote a spectrum of {} bytes to {o}: {}",
+                    cmd.join(" "),
+                    written.len(),
+                    run.describe()
+                );
+            }
+        }
         let out = run.stdout_str();
         let has_row = out.lines().any(|l| l.split(',').all(|t| t.trim().parse::<f64>().is_ok()) && !l.trim().is_empty());
         ensure!(
@@ -386,14 +435,14 @@ fn eval_cli(ctx: &Ctx, case: &CliCase) -> Verdict {
             run.describe()
         );
     }
-    Ok(Pass::new().nontrivial(true).label(label).label(if case.stdin { "stdin" } else { "path" }))
+    Ok(Pass::new().nontrivial(true).label(label).label(if case.stdin { "stdin" } else { "path" }).label(format!("name={name}")))
 }
 
 pub fn check(ctx: &Ctx) -> Check {
     let parts: Vec<Box<dyn Part>> = vec![
         Box::new(RandomPart {
             name: "npy-faults",
-            rule: "valid npy files from sfs's writer and from the numpy-layout writer (all 10 dtypes, both byte orders, versions 1/2/3, 1..5 axes, >=1 element): EVERY truncation offset 0..len-1, every extension by 1..16 bytes (zeros / random / copy of the last value / line feeds / spaces), and value counts off by whole values are fed to Array::read_npy, which must return Err (no Ok, no panic); the undamaged file must be accepted; non-trivial = the sweep contains cuts at a value boundary, in the padding or in the header-length field (always true); distinct by file",
+            rule: "valid npy files from sfs's writer and from the numpy-layout writer (all 10 dtypes, both byte orders, versions 1/2/3, 1..5 axes, >=1 element; one file in seven has a data section that is a whole multiple of, or just beside, 512 B .. 128 KiB): EVERY truncation offset 0..len-1 (files above 2000 bytes: header, first and last 80 data bytes, 20 bytes either side of every multiple of 512), every extension by 1..16 bytes (zeros / random / copy of the last value / line feeds / spaces), and value counts off by whole values are fed to Array::read_npy, which must return Err (no Ok, no panic); the undamaged file must be accepted; non-trivial = the sweep contains cuts at a value boundary, in the padding or in the header-length field (always true); distinct by file",
             cases: ctx.tier.pick(1000, 50_000),
             strategy: Box::new(|| npy_strategy().boxed()),
             eval: Box::new(eval_npy),
@@ -407,7 +456,7 @@ pub fn check(ctx: &Ctx) -> Check {
         }),
         Box::new(RandomPart {
             name: "cli-faults",
-            rule: "a sample of the damaged npy/text files through `sfs view`, `fold`, `stat -s sum` (+ `view -O npy`, `stat -H`), by path and on stdin: exit status non-zero, diagnostic on stderr, stdout without #SHAPE, npy magic or a numeric row",
+            rule: "a sample of the damaged npy/text files through `sfs view`, `fold`, `stat -s sum` (+ `view -O npy|text`, `fold -O npy`, `view -O npy -o FILE`, `fold -o FILE`, `stat -H`), by path (file named .bin, .npy, .sfs, .txt or without extension, whatever its content) and on stdin: exit status non-zero, diagnostic on stderr, stdout and the -o file without #SHAPE, npy magic or a numeric row",
             cases: ctx.tier.pick(500, 15_000),
             strategy: Box::new(|| cli_strategy().boxed()),
             eval: Box::new(eval_cli),
